@@ -60,6 +60,8 @@ def cPidx (s : State) : Bool :=
   allEntries s.pidx fun i h => ((s.obj h).lidx == i) && (i != 0) && (s.indexes.get i).isNone && (s.obj h).ready
 def cVpn (s : State) : Bool := allEntries s.vpnIps fun a h => ((s.obj h).addrs == [a]) && !live s h
 def cFresh (s : State) : Bool := s.objs.keys.all fun h => decide (h < s.next)
+def cVpnReady (s : State) : Bool :=
+  allEntries s.vpnIps fun _ h => !(s.obj h).ready || (s.pidx.get (s.obj h).lidx == some h)
 
 /-- the clauses with the class reported when one fails -/
 def invClauses (s : State) : List (Bool × String) :=
@@ -68,7 +70,8 @@ def invClauses (s : State) : List (Bool × String) :=
    (cRidx s, "remote-index-dead-or-mismatch"), (cRel s, "relay-index-dead-or-unlisted-tunnel"),
    (cRelOwn s, "relay-index-not-registered"), (cAgreeA s, "relay-maps-disagree"), (cAgreeI s, "relay-maps-disagree-idx"),
    (cRsPend s, "relay-on-pending-tunnel"), (cPidx s, "pending-index-zero-mismatch-or-overlap"),
-   (cVpn s, "pending-tunnel-malformed-or-live"), (cFresh s, "object-id-not-fresh")]
+   (cVpn s, "pending-tunnel-malformed-or-live"), (cFresh s, "object-id-not-fresh"),
+   (cVpnReady s, "pending-tunnel-lost-its-index")]
 
 def firstFailing (l : List (Bool × String)) : Option String :=
   match l.find? (fun p => !p.1) with | some p => some p.2 | none => none
